@@ -102,6 +102,31 @@ def pretty_any_event(v, ctx):
     return prettyprinter.pretty_call(ctx, Event, v.name, payload=v.payload)
 
 
+class Shape:
+    """Shape <- Polygon <- Square: printers registered BY NAME for Shape first and for Polygon second, none for Square; both stay pending until a print
+    needs them - the nearer one (Polygon) must win from the very first print of a Square"""
+    def __init__(self, name, sides=0):
+        self.name, self.sides = name, sides
+
+
+class Polygon(Shape):
+    pass
+
+
+class Square(Polygon):
+    pass
+
+
+@register_pretty(__name__ + '.Shape')
+def pretty_shape(v, ctx):
+    return prettyprinter.pretty_call(ctx, type(v), v.name)
+
+
+@register_pretty(__name__ + '.Polygon')
+def pretty_polygon(v, ctx):
+    return prettyprinter.pretty_call(ctx, type(v), v.name, sides=v.sides)
+
+
 class MRec:
     """printer registered BY NAME when this module is imported: it stays pending until some print needs it"""
 
@@ -243,6 +268,9 @@ def build_corpus(quick):
     add('event-full', Event('a', [1, 2]))
     add('event-empty', Event('ping', None))
     add('event-mixed', [Event('x', None), Event('y', 2), Event('z', None)])
+    add('square', Square('unit', 4))
+    add('polygon', Polygon('tri', 3))
+    add('shape', Shape('blob'))
     add('mpoint', MPoint((1, 2)))
     add('mrec', MRec())
     add('mmap', MMap(a=1))
@@ -465,6 +493,8 @@ def run_shard(sh):
         ['op:arm-abort', 'abort-top', 'abort-container', 'op:disarm-abort', 'abort-container', 'shared', 'abort-top'],
         ['event-full', 'event-empty', 'event-mixed', 'event-empty', 'event-full'],
         ['event-mixed', 'event-full', 'event-empty'],
+        ['square', 'square', 'polygon', 'square', 'shape', 'square'],
+        ['shape', 'square', 'polygon', 'square'],
         ['mpoint', 'mrec', 'mpoint', 'mmap', 'mlist-nested'],
         ['mmap', 'mlist-nested', 'mpoint', 'mrec', 'mmap', 'mlist-nested', 'mpoint'],
         list(reversed(names)),
